@@ -14,6 +14,10 @@
 #define VP_GLIB_H
 #include <glib.h>
 
+/* byte copy towards lower or equal addresses / between distinct objects (forward loop); the loop is unwound by the unit
+ * (array models are only used in bounded stand-ins with small element counts) - avoids cbmc's costly symbolic-size memcpy */
+static void vp_bytes(gchar *dst, const gchar *src, size_t n) { for (size_t vp_b = 0; vp_b < n; vp_b++) dst[vp_b] = src[vp_b]; }
+
 /* ---------------- GArray (concrete) ---------------- */
 typedef struct { gchar *data; guint len; guint elt_size; guint cap; } vp_garray;   /* first two members = GArray */
 
@@ -30,8 +34,8 @@ GArray *g_array_append_vals(GArray *array, gconstpointer data, guint len) {
 	guint nl = a->len + len;
 	gchar *nd = malloc((size_t)nl * a->elt_size + 1);
 	__CPROVER_assume(nd != NULL);
-	if (a->len > 0) memcpy(nd, a->data, (size_t)a->len * a->elt_size);
-	if (len > 0) memcpy(nd + (size_t)a->len * a->elt_size, data, (size_t)len * a->elt_size);
+	vp_bytes(nd, a->data, (size_t)a->len * a->elt_size);
+	vp_bytes(nd + (size_t)a->len * a->elt_size, (const gchar *)data, (size_t)len * a->elt_size);
 	if (a->data != NULL) free(a->data);
 	a->data = nd; a->len = nl;
 	return array;
@@ -41,7 +45,7 @@ GArray *g_array_remove_range(GArray *array, guint index_, guint length) {
 	__CPROVER_assert(index_ <= a->len && length <= a->len - index_, "glib.g_array_remove_range: range inside the array");
 	if (index_ <= a->len && length <= a->len - index_) {
 		guint tail = a->len - index_ - length;
-		if (tail > 0 && length > 0) memmove(a->data + (size_t)index_ * a->elt_size, a->data + (size_t)(index_ + length) * a->elt_size, (size_t)tail * a->elt_size);
+		if (length > 0) vp_bytes(a->data + (size_t)index_ * a->elt_size, a->data + (size_t)(index_ + length) * a->elt_size, (size_t)tail * a->elt_size);
 		a->len -= length;
 	}
 	return array;
@@ -51,7 +55,7 @@ GArray *g_array_remove_index_fast(GArray *array, guint index_) {
 	vp_garray *a = (vp_garray *)array;
 	__CPROVER_assert(index_ < a->len, "glib.g_array_remove_index_fast: index inside the array");
 	if (index_ < a->len) {
-		if (index_ != a->len - 1) memcpy(a->data + (size_t)index_ * a->elt_size, a->data + (size_t)(a->len - 1) * a->elt_size, a->elt_size);
+		if (index_ != a->len - 1) vp_bytes(a->data + (size_t)index_ * a->elt_size, a->data + (size_t)(a->len - 1) * a->elt_size, a->elt_size);
 		a->len -= 1;
 	}
 	return array;
